@@ -425,7 +425,10 @@ def gen_big_dedup(ctx, n):
 
     rng = ctx.rng
     pool = position_pool(ctx)
-    nb = rng.choice([3, 10, 40, 120, 300])
+    nb = rng.choice([3, 10, 40, 120, 300, 600])
+    ctx._c12_big = getattr(ctx, "_c12_big", 0) + 1
+    if ctx._c12_big % 3 == 1:
+        nb = rng.choice([300, 600])  # every third large batch has hundreds of distinct positions
     base = [rng.choice(pool) for _ in range(nb)]
     enc, mask = encoding.encode_batch(base)
     _note_encode_batch(ctx, base, True, enc, mask)
